@@ -15,6 +15,7 @@ from ..kernel import Engine, call, exc_is
 
 CLASSES = ('Bits', 'BitArray', 'ConstBitStream', 'BitStream')
 WRITE_SRC = ('mem', 'file', 'filelen', 'fileoff', 'slice', 'bytesio')
+FILE_ROUTES = ('filename', 'handle', 'handle_update', 'handle_raw', 'handle_bytesname')
 READ_ROUTES = ('bytes', 'bytearray', 'memoryview', 'bytesio', 'filename', 'handle', 'bitarray', 'mv_cast_H', 'mv_cast_I', 'array_H', 'bytesio_pos', 'bytesio_reused', 'bufreader',
                'handle_update', 'handle_raw', 'bufrandom', 'handle_bytesname')
 FAULT_KINDS = ('error', 'torn', 'closed')
@@ -184,6 +185,9 @@ class EIO(Engine):
                             wins.append((o, ln))
             for o, ln in wins:
                 self.queue.append({'k': 'read', 'offset': o, 'length': ln})
+            if cfg.get('route') in FILE_ROUTES and nb:
+                # the file is replaced (rename of a same-sized file, time stamp carried over) while a bitstring of the old one is alive
+                self.queue.insert(len(self.queue) // 2, {'k': 'read', 'offset': None, 'length': None, 'replace': True})
             self.queue.append({'k': 'roundtrip'})
         elif mode == 'fromfile':
             data = bytes.fromhex(cfg['data'])
@@ -473,6 +477,7 @@ class EIO(Engine):
             self.probe('read:window_at_end')
         h = None
         src_buf = None
+        src_bio = None
         try:
             if route == 'bytes':
                 st, x = call(C, bytes=data, **kw)
@@ -484,7 +489,8 @@ class EIO(Engine):
                 mv = memoryview(src_buf if src_buf is not None else data)
                 st, x = call(C, bytes=mv, **kw) if kw else call(C, mv)
             elif route == 'bytesio':
-                st, x = call(C, io.BytesIO(data), **kw)
+                src_bio = io.BytesIO(data)
+                st, x = call(C, src_bio, **kw)
             elif route in ('mv_cast_H', 'mv_cast_I', 'array_H'):
                 # a buffer whose items are wider than a byte: offset and length still count bits of its bytes
                 isz = 4 if route.endswith('I') else 2
@@ -553,6 +559,49 @@ class EIO(Engine):
             if after != ('ok', (want, bits_to_bytes(want))):
                 incs.append(self.inc(f'{tag}|source-rewritten-afterwards|content-changed', cls=cls, size=len(data), offset=o, length=ln))
                 return {'st': 'ok', 'n': len(want)}, incs
+        if src_bio is not None and len(data):
+            # the caller goes on using its BytesIO (the next record written over the old one): it is not left locked by the
+            # bitstring made from it, and what was read from it stays what it was
+            st2, e2 = call(lambda: (src_bio.seek(0), src_bio.write(bytes(b ^ 0xFF for b in data)), src_bio.write(b'more'), src_bio.truncate(1)))
+            self.fault('source_buffer_rewritten')
+            if st2 != 'ok':
+                incs.append(self.inc(f'{tag}|source-reused-afterwards|raised:{kernel.exc_name(e2)}', cls=cls, size=len(data), offset=o, length=ln))
+                return {'st': 'ok', 'n': len(want)}, incs
+            after = call(lambda: (x.bin, x.tobytes()))
+            if after != ('ok', (want, bits_to_bytes(want))):
+                incs.append(self.inc(f'{tag}|source-rewritten-afterwards|content-changed', cls=cls, size=len(data), offset=o, length=ln))
+                return {'st': 'ok', 'n': len(want)}, incs
+        if ev.get('replace') and route in FILE_ROUTES and len(data):
+            old_obj = x
+            data2 = bytes(b ^ 0xFF for b in data)
+            st_ = os.stat(self.path)
+            tmp = self.path + '.new'
+            with open(tmp, 'wb') as f:
+                f.write(data2)
+            os.utime(tmp, ns=(st_.st_atime_ns, st_.st_mtime_ns))
+            os.replace(tmp, self.path)
+            os.utime(self.path, ns=(st_.st_atime_ns, st_.st_mtime_ns))
+            self.fault('file_replaced_under_live_object')
+            h2 = None
+            try:
+                if route == 'filename':
+                    st2, y = call(C, filename=self.path)
+                else:
+                    h2 = (open(os.fsencode(self.path), 'rb') if route == 'handle_bytesname' else open(self.path, 'r+b') if route == 'handle_update'
+                          else open(self.path, 'rb', buffering=0) if route == 'handle_raw' else open(self.path, 'rb'))
+                    st2, y = call(C, h2)
+            finally:
+                if h2 is not None:
+                    h2.close()
+            path_, = (self.path,)
+            del self.path                           # later events get a fresh file with the original content
+            got2 = call(lambda: y.tobytes()) if st2 == 'ok' else (st2, y)
+            if got2 != ('ok', data2):
+                incs.append(self.inc(f'{tag}|file-replaced|stale-or-wrong-content', cls=cls, size=len(data),
+                                     got=got2[1][:40].hex() if isinstance(got2[1], bytes) else kernel.canon(got2[1])))
+            if call(lambda: old_obj.tobytes()) != ('ok', data):
+                incs.append(self.inc(f'{tag}|file-replaced|live-object-of-the-old-file-changed', cls=cls, size=len(data)))
+            return {'st': 'ok', 'n': len(want), 'replaced': True}, incs
         got = call(lambda: x.bin)
         if got != ('ok', want) or len(x) != len(want):
             mut = 'mutable' if cls in ('BitArray', 'BitStream') else 'const'
